@@ -297,6 +297,11 @@ func (t *Tree) startParse(lex *lexer) {
 
 // stopParse terminates parsing.
 func (t *Tree) stopParse() {
+	if t.lex != nil {
+		// Whatever made us stop, don't leave the lexer goroutine blocked
+		// on a token nobody is going to read.
+		t.lex.drain()
+	}
 	t.lex = nil
 }
 
